@@ -223,10 +223,10 @@ func checkC06(c *Ctx, r *Report) {
 		return fl != nil && fieldKeyOf(base, fl) == lastK
 	}
 	r4.onlyIn("access "+lastK, touch, c.FnsOfPkg(swarmP), em("notifyPeer"), swarmP+".newConnectionEventsEmitter")
-	r4.onlyIn("call notifyPeer", callPred(em("notifyPeer")), c.FnsOfPkg(swarmP), em("runEmitter"))
+	r4.onlyCallers("call notifyPeer", []string{em("notifyPeer")}, c.FnsOfPkg(swarmP), em("runEmitter"))
 	goRun := func(in ssa.Instruction) bool { _, ok := in.(*ssa.Go); return ok && isCallTo(in, em("runEmitter")) }
 	r4.onlyIn("go runEmitter", goRun, c.FnsOfPkg(swarmP), swarmP+".newConnectionEventsEmitter")
-	r4.onlyIn("call runEmitter (any)", callPred(em("runEmitter")), c.FnsOfPkg(swarmP), swarmP+".newConnectionEventsEmitter")
+	r4.onlyCallers("call runEmitter (any)", []string{em("runEmitter")}, c.FnsOfPkg(swarmP), swarmP+".newConnectionEventsEmitter")
 
 	// ---- R5 ---------------------------------------------------------------
 	r5 := r.Rule("C06-R5", "E1", 7, "swarm wiring order: register+ref before Connected; Connected before the accept loop; removal before Disconnected; Close waits before closing emitters")
